@@ -2293,6 +2293,17 @@ class Sim:
         self.max_handles = run.get("max_handles", 20000)
         gc_was = gc.isenabled()
         gc.disable()
+        from .loop import Watchdog
+        if Watchdog.tripped:
+            # an earlier run in this process stalled inside library code: every further run would cost seconds of
+            # spinning; the stall is reported, the remaining units of this worker are skipped
+            self.hit_cap = True
+            self._teardown()
+            if gc_was:
+                gc.enable()
+            return self
+        wd = Watchdog(self)
+        wd.start()
         try:
             with running(self.loop), warnings.catch_warnings(record=True) as wlist:
                 warnings.simplefilter("always")
@@ -2312,6 +2323,9 @@ class Sim:
                         run["steps"].append(step)
                         self.exec_step(step)
                 self.run_phase_done = True
+                if getattr(self, "stalled", False):
+                    self.violate(run.get("prop") or "C02", "loop_stalled", "the event loop was kept busy inside ONE handle for seconds of CPU time "
+                                 "(interrupted by the watchdog): library code is spinning without yielding")
                 while self.inject and not self.hit_cap and len(self.viol) < self.MAX_VIOL:
                     _, st = self.inject.pop(0)      # positions at/after the end of the step list
                     self.exec_step(st)
@@ -2332,6 +2346,7 @@ class Sim:
                         self.stats["probe:coroutine_never_awaited"] += 1
                 self._teardown()
         finally:
+            wd.stop()
             if gc_was:
                 gc.enable()
         return self
